@@ -9,6 +9,7 @@ CONSTANTS
  DelayBeforeStart = TRUE
  CancelInPlace = TRUE
  ForgetDiscarded = TRUE
+ TolerantCompletion = FALSE
  DropLateBoxes = FALSE
  Record = FALSE
 INVARIANT NoErr
